@@ -1473,6 +1473,13 @@ func (e *Entry) Find(name string) *Entry {
 			if m != e.Node.(*Module) {
 				e = ToEntry(m)
 			}
+		} else if sm, ok := e.Node.(*Module); ok && sm.Kind() == "submodule" {
+			// An unprefixed name denotes the current module, which
+			// for a path written in a submodule is the module the
+			// submodule belongs to (as for its own prefix).
+			if m := module(sm); m != nil {
+				e = ToEntry(m)
+			}
 		}
 	}
 
